@@ -184,6 +184,47 @@ func cdistReplay(in io.Reader, raw bool, args []string) (*Summary, error) {
 				}
 			}
 		}
+		// NormalDist.InvCDF: NaN for every p outside [0,1], by whatever amount
+		for _, mr := range cc.Mus {
+			for _, sr := range cc.Sigmas {
+				d := stats.NormalDist{Mu: float64(mr[0]) / float64(mr[1]), Sigma: float64(sr[0]) / float64(sr[1])}
+				for _, pbad := range []float64{math.Nextafter(1, 2), 1 + 1e-15, 1 + 1e-13, 1 + 1e-9, 2, math.Inf(1), -5e-324, -1e-300, -1e-16, -1e-13, -1e-9, -1, math.Inf(-1), math.NaN()} {
+					sum.Checks++
+					if g := d.InvCDF(pbad); !math.IsNaN(g) {
+						sum.viol("NormalDist.InvCDF-domain", c, "%+v.InvCDF(%v)=%v want NaN", d, pbad, g)
+					}
+					if g := stats.InvCDF(d)(pbad); !math.IsNaN(g) {
+						sum.viol("NormalDist.InvCDF-domain", c, "stats.InvCDF(%+v)(%v)=%v want NaN", d, pbad, g)
+					}
+				}
+			}
+		}
+		// arguments far out, up to the largest floats and the infinities: limits 0 and 1, monotone all the way
+		for _, v := range []float64{0.1, 0.5, 1, 1.5, 2, 2.5, 3, 4, 7, 30, 343, 1e4} {
+			d := stats.TDist{V: v}
+			prev := d.CDF(40)
+			for _, x := range []float64{1e3, 1e10, 1e100, 1e153, 1e154, 2e154, 1e200, 1e300, math.MaxFloat64, math.Inf(1)} {
+				sum.Checks++
+				hi, lo := d.CDF(x), d.CDF(-x)
+				if !(hi >= prev-1e-12 && hi <= 1) || !(lo >= 0 && lo <= 1-prev+1e-12) || math.Abs(hi+lo-1) > 1e-9 || !closeF(hi, tcdf(v, x), 1e-9, 0) {
+					sum.viol("TDist.CDF-limits", c, "TDist{%v}: CDF(%v)=%v CDF(%v)=%v (CDF(40)=%v)", v, x, hi, -x, lo, prev)
+				}
+				if pd := d.PDF(x); !(pd >= 0) || math.IsInf(pd, 0) || pd > 1e-3 {
+					sum.viol("TDist.PDF", c, "TDist{%v}.PDF(%v)=%v", v, x, pd)
+				}
+				if hi > prev {
+					prev = hi
+				}
+			}
+		}
+		for _, d := range []stats.NormalDist{{Mu: 0, Sigma: 1}, {Mu: -7, Sigma: 1e-3}, {Mu: 1e6, Sigma: 1e6}} {
+			for _, x := range []float64{1e10, 1e100, 1e200, 1e300, math.MaxFloat64, math.Inf(1)} {
+				sum.Checks++
+				if hi, lo := d.CDF(x), d.CDF(-x); hi != 1 || lo != 0 || d.PDF(x) != 0 || d.PDF(-x) != 0 {
+					sum.viol("NormalDist-limits", c, "%+v: CDF(%v)=%v CDF(%v)=%v PDF %v %v", d, x, hi, -x, lo, d.PDF(x), d.PDF(-x))
+				}
+			}
+		}
 		// the walk over V: density and distribution function at a few fixed points for every V
 		for _, vr := range cc.VWalk {
 			v := float64(vr[0]) / float64(vr[1])
